@@ -273,7 +273,12 @@ func replayC17Eval(env *core.Env, a []json.RawMessage) {
 }
 
 // compile-option kinds
-var c17CompKinds = []string{"fn-good", "fn-typed", "fn-bad-first", "fn-bad-results", "fn-variadic", "fn-zero-arg", "fn-builtin-name", "fn-dup-name", "not-a-func", "experimental", "permissive"}
+var c17CompKinds = []string{"fn-good", "fn-typed", "fn-bad-first", "fn-bad-results", "fn-variadic", "fn-zero-arg", "fn-builtin-name", "fn-dup-name", "not-a-func", "experimental", "permissive", "fn-bad-errtype", "fn-bad-3results", "fn-bad-first-ptr", "fn-bad-result-type"}
+
+// c17Err is a concrete error type: a function returning it instead of the `error` interface has a bad signature.
+type c17Err struct{}
+
+func (*c17Err) Error() string { return "c17Err" }
 
 func c17CompOpt(kind string, p *c17Probe) (fhirpath.CompileOption, bool) {
 	switch kind {
@@ -295,6 +300,14 @@ func c17CompOpt(kind string, p *c17Probe) (fhirpath.CompileOption, bool) {
 		return compopts.AddFunction("good", p.f1), false // fails only when "good" is registered twice
 	case "not-a-func":
 		return compopts.AddFunction("nf", 42), true
+	case "fn-bad-errtype":
+		return compopts.AddFunction("baderr", func(in system.Collection) (system.Collection, *c17Err) { p.calls++; return in, nil }), true
+	case "fn-bad-3results":
+		return compopts.AddFunction("bad3", func(in system.Collection) (system.Collection, error, int) { p.calls++; return in, nil, 0 }), true
+	case "fn-bad-first-ptr":
+		return compopts.AddFunction("badptr", func(in *system.Collection) (system.Collection, error) { p.calls++; return nil, nil }), true
+	case "fn-bad-result-type":
+		return compopts.AddFunction("badrt", func(in system.Collection) ([]any, error) { p.calls++; return nil, nil }), true
 	case "experimental":
 		return compopts.WithExperimentalFuncs(), false
 	case "permissive":
@@ -346,6 +359,19 @@ func c17CompList(env *core.Env, kinds []string) {
 		}
 		if p.calls != 0 {
 			env.Violatef("C17/compopts/function-called-during-compile", "compile options [%s]: a custom function was invoked during Compile", list)
+		}
+		// the error is the option's, whatever the source text is (well-formed, malformed, empty)
+		if ex == nil && cr.Err != nil {
+			for _, other := range []string{"Patient.name.(", "1 +", "", "Patient.nosuchfunction()", "'unterminated"} {
+				_, cr2 := fx.Compile(env, other, co...)
+				env.Cover("option-error-with-other-source")
+				if cr2.IsPanic() {
+					env.Violatef(fx.PanicSig("C17", cr2), "compile options [%s], source %q => %s", list, other, cr2.Short())
+				} else if cr2.Err == nil || cr2.Err.Error() != cr.Err.Error() {
+					env.Violatef("C17/compopts/option-error-replaced", "compile options [%s]: with source %q Compile reports %q; with source %q it reports %v (a failing option is reported whatever the source is)", list, src, cr.Err, other, cr2.Err)
+					break
+				}
+			}
 		}
 		return
 	}
